@@ -9,11 +9,11 @@ func init() {
 	register("C02", "Decided: ModR/M and SIB tables, special cases, displacement thresholds, SIB presence, consumption of every parsed address component, operator handling in the operand grammar, 67h predicate, agreement of the pass-1 displacement/SIB sizing. Not decided: the path-sensitive composition of the calculator's branches.",
 		ruleT6, ruleQ2, ruleE8, ruleG2, ruleT1, ruleI1, ruleP3, ruleZ3, ruleF8size, ruleM2, ruleE3)
 	register("C03", "Decided: advance-iff-emit on every handler path, constant size rules vs emitter lengths, size-model terms and prefix predicates, data-directive lockstep, label/$ = LOC, pass-2 hand-over. Not decided: equality of the two size computations on every operand value.",
-		ruleP8, ruleS3, ruleS3e, ruleF8size, ruleZ3, ruleP7, ruleP7e, ruleF2, ruleN5, ruleP5, ruleP3, ruleF8a, ruleM2, ruleE1)
+		ruleP8, ruleW3, ruleS3, ruleS3e, ruleF8size, ruleZ3, ruleP7, ruleP7e, ruleF2, ruleN5, ruleP5, ruleP3, ruleF8a, ruleM2, ruleE1)
 	register("C04", "Decided: condition codes, opcode bytes, length-adjusted displacement, range test on the narrowed value, little-endian fields, origin in the current address, mode guards. Not decided: that pass 1 leaves the target where the emitter assumes it.",
 		ruleT3, ruleBranch, ruleI1, ruleF6, ruleS3, ruleS3e)
 	register("C05", "Decided: per-clause lockstep of size and emitted elements, lane order, decimal hand-off, RESB flow, non-emitting statements, every operand clause contributes or diagnoses, ALIGNB address basis.",
-		ruleP7, ruleP7e, ruleF2, ruleN5, ruleP2b, ruleP8, ruleE10, ruleF6)
+		ruleP7, ruleP7e, ruleF2, ruleN5, ruleP2b, ruleP8, ruleW3, ruleE10, ruleF6)
 	register("C06", "Decided: precedence layering of the grammar, operator table of the evaluator, literal bases. Not decided: 64-bit overflow semantics.",
 		ruleT7, ruleT7b, ruleT10Expr, ruleE3)
 	register("C07", "Decided: every handler return emits, delegates or diagnoses at >= warning (level decided from colog's own table plus the CLI's AddHeader calls); Emit failures are never lost; data-directive clauses; code-generation handlers.",
@@ -21,7 +21,7 @@ func init() {
 	register("C08", "Decided: record layouts and constants, capture-then-write ordering, symbol/aux counts, string table. Not decided: acceptance by an independent COFF reader.",
 		ruleT8, ruleP4)
 	register("C09", "Decided: same code in both formats, membership-tested symbol lists, stable name-blind ordering, inline-name threshold, bounded name copies.",
-		ruleE9, ruleSymSort, ruleS9c, ruleF4, ruleBoundedCopy, ruleT8, ruleS15)
+		ruleE9, ruleSymSort, ruleS9c, ruleF4, ruleBoundedCopy, ruleT8, ruleS15, ruleW3, ruleN5)
 	register("C10", "Decided: no post-init writes of package-level state, no map iteration / clock / random / environment / goroutines reachable from an assembly, truncating output, single image write. Third-party packages are trusted.",
 		ruleE1, ruleE1b, ruleE2, ruleE3, ruleP6)
 	register("C11", "Decided: the EQU clause stores the evaluated body under the identifier's own text and emits nothing; handlers get evaluated operands; lookups are re-evaluated at the use site. Not decided: equivalence with textual inlining for bodies containing `$`.",
